@@ -44,6 +44,7 @@ pub trait Machine: Clone {
     const NREGS: usize;
     fn new(seed: u64) -> Self;
     fn exec(&mut self, code: &[Self::Code]) -> Exit;
+    fn exec_limit(&mut self, code: &[Self::Code], limit: usize) -> Exit;
     fn get(&self, t: Self::Temp) -> u64;
     fn set(&mut self, t: Self::Temp, v: u64);
     fn reg(&self, n: usize) -> u64;
